@@ -33,37 +33,40 @@ def lock_version(text, name, what):
     return vs[0]
 
 
-def metadata_dir(name, version):
-    if "packages" not in _meta:
+def metadata_dir(name, version, harness="h-roff"):
+    pk = "packages" if harness == "h-roff" else "packages:" + harness
+    if pk not in _meta:
         try:
-            out = subprocess.run(["cargo", "metadata", "--offline", "--format-version", "1"], cwd=HARNESS, check=True,
+            out = subprocess.run(["cargo", "metadata", "--offline", "--format-version", "1"],
+                                 cwd=os.path.join(os.path.dirname(HARNESS), harness), check=True,
                                  stdout=subprocess.PIPE, stderr=subprocess.PIPE, timeout=120,
                                  env=dict(os.environ, CARGO_NET_OFFLINE="true")).stdout
-            _meta["packages"] = json.loads(out)["packages"]
+            _meta[pk] = json.loads(out)["packages"]
         except (OSError, subprocess.SubprocessError, ValueError, KeyError) as e:
-            raise ValueError("cargo metadata --offline in harness/h-roff failed: %s" % e)
-    hits = [p for p in _meta["packages"] if p["name"] == name]
+            raise ValueError("cargo metadata --offline in harness/%s failed: %s" % (harness, e))
+    hits = [p for p in _meta[pk] if p["name"] == name]
     if len(hits) != 1 or hits[0]["version"] != version:
-        raise ValueError("cargo metadata (harness/h-roff): package %s resolves to %r, Cargo.lock pins %s"
-                         % (name, [p["version"] for p in hits], version))
+        raise ValueError("cargo metadata (harness/%s): package %s resolves to %r, Cargo.lock pins %s"
+                         % (harness, name, [p["version"] for p in hits], version))
     return os.path.dirname(hits[0]["manifest_path"])
 
 
-def crate_dir(gm, name):
-    """(version, directory) of the third-party crate `name`; raises gm.GenError"""
+def crate_dir(gm, name, harness="h-roff"):
+    """(version, directory) of the third-party crate `name`; raises gm.GenError.
+    `harness`: the harness crate (directory under harness/) that links the crate into the differential runs"""
     try:
         version = lock_version(gm.read("Cargo.lock"), name, "Cargo.lock")
-        with open(os.path.join(HARNESS, "Cargo.lock"), encoding="utf-8") as f:
-            hv = lock_version(f.read(), name, "harness/h-roff/Cargo.lock")
+        with open(os.path.join(os.path.dirname(HARNESS), harness, "Cargo.lock"), encoding="utf-8") as f:
+            hv = lock_version(f.read(), name, "harness/%s/Cargo.lock" % harness)
         if hv != version:
-            raise ValueError("harness/h-roff/Cargo.lock links %s %s, /repo/Cargo.lock pins %s" % (name, hv, version))
+            raise ValueError("harness/%s/Cargo.lock links %s %s, /repo/Cargo.lock pins %s" % (harness, name, hv, version))
         override = os.environ.get("VERIF_REGISTRY")
         roots = [override] if override else sorted(glob.glob(os.path.expanduser("~/.cargo/registry/src/*")))
         dirs = [d for d in (os.path.join(r, "%s-%s" % (name, version)) for r in roots) if os.path.isdir(d)]
         if len(dirs) != 1:
             raise ValueError("source of %s %s: %d directories `%s-%s` under %s" % (name, version, len(dirs), name, version, roots))
         if not override:
-            md = metadata_dir(name, version)
+            md = metadata_dir(name, version, harness)
             if os.path.realpath(md) != os.path.realpath(dirs[0]):
                 raise ValueError("cargo links %s from %s, the translator reads %s" % (name, md, dirs[0]))
         return version, dirs[0]
@@ -71,9 +74,9 @@ def crate_dir(gm, name):
         raise gm.GenError(str(e))
 
 
-def read_crate(gm, name, rel):
+def read_crate(gm, name, rel, harness="h-roff"):
     """text of `rel` (e.g. src/lib.rs) of the pinned version of crate `name`"""
-    version, d = crate_dir(gm, name)
+    version, d = crate_dir(gm, name, harness)
     p = os.path.join(d, rel)
     try:
         with open(p, encoding="utf-8") as f:
